@@ -152,7 +152,7 @@ def optstr(b):
 def run_resolve(ctx):
     hx = ctx.go_build("c09")
     quick = ctx.quick()
-    cmd = [hx, "resolve", "-seed", str(ctx.seed), "-n", "420" if quick else "5000",
+    cmd = [hx, "resolve", "-seed", str(ctx.seed), "-n", "680" if quick else "5000",
            "-vectors", "8" if quick else "64", "-coq", "30" if quick else "320"]
     rows = ctx.jsonl(cmd, timeout=1500)
     world = [r for r in rows if r.get("kind") == "world"][0]
@@ -200,7 +200,7 @@ def resolve_finish(ctx, summary, terms, refs, bad_model, bad_spec):
     return {
         "evaluations": summary["runs"], "distinct_nontrivial": summary["runs"],
         "programs": summary["programs"], "option_vectors": summary["vectors"], "plants": summary["plants"],
-        "rule": "programs from a grammar (defs with all parameter kinds, nested defs, lambdas with defaults, comprehensions with several clauses, if/for/break/continue, calls with positional/named/*/** arguments, loads) valid under every option vector; in 7 of 8 programs one construct is planted (73 kinds: every rule of the resolver, at top level / in a function / in a loop / in an if / in a nested def / in a def inside a loop, or wrapped in random expression contexts) x option vectors (quick: all-off, all-on and 6 seeded; thorough: all 64). Each run goes through the real ExecFileOptions pipeline with logging built-ins and a logging loader.",
+        "rule": "programs from a grammar (defs with all parameter kinds, nested defs, lambdas with defaults, comprehensions with several clauses, if/for/break/continue, calls with positional/named/*/** arguments, loads) valid under every option vector; in 7 of 8 programs one construct is planted (73 kinds: every rule of the resolver, at top level / in a function / in a loop / in an if / in a nested def / in a def inside a loop, or wrapped in random expression contexts), plus 7 context-sensitive constructs (load, break, continue, return, if, for, while) x 30 branch positions (if-true, elif, final else after one or two elifs, for body, while body, nestings of these, after a compound statement; at top level and in a function) with the exact expected error list, x option vectors (quick: all-off, all-on and 6 seeded; thorough: all 64). Each run goes through the real ExecFileOptions pipeline with logging built-ins and a logging loader.",
         "distribution": summary["dist"], "coq_programs": len(terms),
         "model_mismatches": len(bad_model), "spec_mismatches": len(bad_spec),
         "expectation_mismatches": summary["problem_programs"],
@@ -264,8 +264,8 @@ def run_rec(ctx):
         if c.get("problem"):
             kind = "reentered" if c["obs"].startswith("ok") and not c["rec"] else "spurious-failure" if c["expect"].startswith("ok") else "wrong-function"
             edges = "closure-pair" if any(n.startswith("k0") for n in c["chain"]) else "plain"
-            ctx.finding("recursion:%s:%s:%s" % ("on" if c["rec"] else "off", kind, edges),
-                        "call chain %s with Recursion=%s: %s\n%s" % (" -> ".join(c["chain"]), c["rec"], c["problem"], c["src"]), c)
+            ctx.finding("recursion:%s:%s:%s:%s" % ("on" if c["rec"] else "off", c.get("entry", "file"), kind, edges),
+                        "call chain %s with Recursion=%s, entered from %s: %s\n%s" % (" -> ".join(c["chain"]), c["rec"], "the host (starlark.Call on an idle thread)" if c.get("entry") == "go" else "the module top level", c["problem"], c["src"]), c)
         if c["obs"].startswith("other:"):
             continue
         evs = clist(["CallFn %d %d" % (e[1], e[2]) if e[0] == 0 else "CallBuiltin %d" % e[1] if e[0] == 1 else "Return" for e in c["events"]])
@@ -300,7 +300,7 @@ def rec_finish(ctx, summary, terms, refs, bad_model, bad_spec):
     return {"recursion_graphs": summary["graphs"], "recursion_runs": summary["runs"], "recursion_distribution": summary["dist"],
             "recursion_coq_runs": len(terms), "recursion_model_mismatches": len(bad_model),
             "recursion_spec_mismatches": len(bad_spec), "recursion_rule_mismatches": summary["problems"],
-            "recursion_rule": "call chains of length <= 6 over <= 4 callables drawn from 4 plain functions and two closures of one definition; each definition calls the next callable directly, through a lambda, or through the key callback of sorted/min/max (seeded per definition); one third of the chains are made acyclic; every chain is run twice in sequence, with Recursion off and on"}
+            "recursion_rule": "call chains of length <= 6 over <= 4 callables drawn from 4 plain functions and two closures of one definition; each definition calls the next callable directly, through a lambda, or through the key callback of sorted/min/max (seeded per definition); one third of the chains are made acyclic; every chain is run twice in sequence, with Recursion off and on, entered both from the module's top level and by the host with starlark.Call on an idle thread (no <toplevel> frame below)"}
 
 
 def run(ctx):
